@@ -864,11 +864,22 @@ impl<'a, 'd> Gen<'a, 'd> {
         let before: HashSet<VarId> = self.visible().into_iter().map(|(v, _)| v).collect();
         let mut taken = vec![];
         let params: Vec<(VarId, Ty)> = ps.iter().map(|t| (self.new_param(t.clone(), &mut taken), t.clone())).collect();
+        // (KF-05) inside a closure body a closure-returning function still has its
+        // declared func result type: not called from closure bodies while that is open
+        let saved_callable = self.callable.clone();
+        let saved_user = self.user_fns.clone();
+        if !self.esc_ok {
+            let fns = &self.p.fns;
+            self.callable.retain(|f| !fns[*f].ret.has_fn());
+            self.user_fns.retain(|f| !fns[*f].ret.has_fn());
+        }
         let body = if fuel > 1 && self.d.chance(100) {
             self.block(r, fuel - 1)
         } else {
             self.expr(r, fuel - 1)
         };
+        self.callable = saved_callable;
+        self.user_fns = saved_user;
         self.scope.truncate(saved);
         if uses_any(&body, &before) {
             self.label("closure:capture");
@@ -1444,7 +1455,9 @@ impl<'a, 'd> Gen<'a, 'd> {
         }
         let args = self.call_args(&ps, fuel);
         let v = self.new_var(ret.clone(), true);
-        Some(vec![Stmt::Let(Pat::Var(v), Some(ret), Expr::Call(Callee::Fn(f, targs), args))])
+        // a returned closure keeps its closure type only without an annotation (KF-05)
+        let ann = if ret.has_fn() && !self.esc_ok { None } else { Some(ret) };
+        Some(vec![Stmt::Let(Pat::Var(v), ann, Expr::Call(Callee::Fn(f, targs), args))])
     }
 
     /// `let y = g(args);` for a function value in scope
@@ -1645,10 +1658,27 @@ impl<'a, 'd> Gen<'a, 'd> {
             let saved = self.scope.len();
             let k = self.d.below(3);
             let mut stmts = vec![];
+            // (KF-05) a closure-returning function that uses another one keeps
+            // its declared func result type: do not call those from here
+            let saved_callable = self.callable.clone();
+            let saved_user = self.user_fns.clone();
+            let fns = &self.p.fns;
+            self.callable.retain(|f| !fns[*f].ret.has_fn());
+            self.user_fns.retain(|f| !fns[*f].ret.has_fn());
             for _ in 0..k {
-                stmts.extend(self.stmt(2));
+                // the closure must stay the direct result of the body: a destructuring
+                // let would nest it inside a match arm (branch result, KF-05)
+                let mark = self.scope.len();
+                let ss = self.stmt(2);
+                if ss.iter().any(|s| matches!(s, Stmt::Let(p, _, _) if !matches!(p, Pat::Var(_)))) {
+                    self.scope.truncate(mark);
+                    continue;
+                }
+                stmts.extend(ss);
             }
             let c = self.closure(&ps, &r, 3);
+            self.callable = saved_callable;
+            self.user_fns = saved_user;
             self.scope.truncate(saved);
             self.label("closure:returned");
             (Ty::Fn(ps, Box::new(r)), Expr::Block(stmts, Some(Box::new(c))))
